@@ -40,6 +40,12 @@ Fixpoint okb (t : term) : bool :=
   end.
 
 (* ------------------------------------------------------------------ histories *)
+
+(* which part of the environment failed under an operation: the used-address look-up of the chain
+   database (chainFetcher.CheckScriptHashUsed: imports, the gap rule), another read of the chain
+   database (rescan, start-up catch-up, previous transactions), or the wallet database *)
+Inductive fault := FChainLookup | FChainFetch | FStorage.
+
 Inductive sop :=
 | SCreate (w : nat) (coin : Z) (ent_len remark_len : nat)   (* CreateWallet: fresh seed w *)
 | SNewAddr (n : nat) (a : Z * Z)                            (* NewAddress on instance number n *)
@@ -50,12 +56,29 @@ Inductive sop :=
 | SImportMnemonic (w : nat) (coin : Z) (ent_len : nat) (addrs : list (Z * Z))
 | SChangePub                                                (* ChangePubPassphrase: every instance re-keyed *)
 | SRestart                                                  (* Stop / Start: rows unchanged *)
-| SRemove (n : nat).                                        (* the rows were on disk; nothing is un-known *)
+| SRemove (n : nat)                                         (* the rows were on disk; nothing is un-known *)
+| SReveal (n : nat)                                         (* GetMnemonic with the right passphrase: the sentence goes to the
+                                                               caller who proved the passphrase; nothing is stored, exported or
+                                                               put into an error *)
+| SUse (n : nat)                                            (* UseWallet: reads only *)
+(* the operation [o] was attempted and FAILED with an environment error: the output is the error
+   value the real code builds on such a path — a constant text chosen by the failing site, public
+   context (wallet ids, account numbers, key names, heights, transaction ids, addresses: [ctx]) and
+   the wrapped error of the environment ([env], any byte string: the environment chooses it). The
+   construction sites read: keystore/db.go ("failed to store ...: %v", "failed to get %d: %v" with
+   the KEY NAME as a byte list, "account %d not found", "malformed serialized account for key %x"),
+   keystore/manager.go ("failed to encrypt/decrypt ... for account %d", the bare error of checkfunc
+   in createManagerKeyScope), keystore/addrmgr.go ("failed to get managedAddress, index: %v"),
+   txmgr ("failed to put balance, account: %s, amount: %d, err: %v"), masswallet/wallet.go
+   ("%s: %v" of a wallet id and the error), ntfnshandler.go (heights, block metas), and the bare
+   errors of masswallet/db and of mass-core's database.Db. None takes an argument of the operation
+   other than wallet ids, addresses and numbers: that is the claim the correspondence scan tests. *)
+| SEnvFail (o : sop) (f : fault) (site : Z) (ctx : list bytes) (env : bytes).
 
 Record world := mkWorld {
   w_insts : list inst;        (* live instances, newest first *)
   w_known : list term;        (* every row ever written, every export, error and signature *)
-  w_secret : list term;       (* the secrets of every instance that ever existed *)
+  w_secret : list term;       (* the secrets of every instance that ever existed or was attempted *)
   w_fresh : nat;              (* next unused number for ids, salts *)
   w_pubpass : nat }.          (* index of the current public passphrase *)
 
@@ -75,7 +98,35 @@ Fixpoint replace_nth (n : nat) (f : inst -> inst) (l : list inst) : list inst :=
   | k :: r, S m => k :: replace_nth m f r
   end.
 
-Definition sstep (wd : world) (o : sop) : world :=
+(* the error value of an environment failure: constant text, public context, the environment's error *)
+Fixpoint pub_list (l : list bytes) : term :=
+  match l with [] => Pub [] | b :: r => Cat (Pub b) (pub_list r) end.
+Definition env_error_term (site : Z) (ctx : list bytes) (env : bytes) : term :=
+  Cat (Pub [site]) (Cat (pub_list ctx) (Pub env)).
+
+(* the parameter record an operation is called with (keystore.WalletParams of a mnemonic import:
+   version, MNEMONIC, remarks, PRIVATE PASSPHRASE, index hints, gap limit; passphrase and remarks of
+   CreateWallet; the passphrase of the calls that need one); the mnemonic sentence is the entropy
+   (NewMnemonic is a public bijection) *)
+Definition pass_of_inst (wd : world) (n : nat) : term :=
+  match nth_error (w_insts wd) n with Some k0 => t_privpass (i_seed k0) | None => Pub [] end.
+Definition params_term (wd : world) (o : sop) : term :=
+  match o with
+  | SCreate w _ _ _ => Cat (t_privpass w) (Pub [])
+  | SImportMnemonic w _ _ _ => Cat (Pub [0]) (Cat (t_entropy w) (Cat (Pub []) (Cat (t_privpass w) (Pub []))))
+  | SImportKeystore n => Cat (match nth_error (w_insts wd) n with Some k0 => export_term k0 | None => Pub [] end) (pass_of_inst wd n)
+  | SSign n _ _ | SExport n | SReveal n | SRemove n => pass_of_inst wd n
+  | _ => Pub []
+  end.
+
+(* [pfix] = true: the code as it is, errors of environment failures carry public data only.
+   [pfix] = false: the seeded regression (a "%v" of the WalletParams value in the wrapped error):
+   the error of a failed operation also carries the operation's parameter record. *)
+Definition fail_error (pfix : bool) (wd : world) (o : sop) (site : Z) (ctx : list bytes) (env : bytes) : term :=
+  if pfix then env_error_term site ctx env
+  else Cat (env_error_term site ctx env) (params_term wd o).
+
+Fixpoint sstep_gen (pfix : bool) (wd : world) (o : sop) {struct o} : world :=
   let f := w_fresh wd in
   match o with
   | SCreate w coin el rl =>
@@ -120,10 +171,25 @@ Definition sstep (wd : world) (o : sop) : world :=
               (w_secret wd) (f + S (length ins)) g
   | SRestart => wd
   | SRemove n => wd
+  | SReveal n => wd
+  | SUse n => wd
+  | SEnvFail o' _ site ctx env =>
+      (* the failed operation is rolled back: no new instance, no re-keying, the public passphrase
+         stays. What the attacker gets is bounded from above: EVERYTHING the completed operation
+         would have stored or returned (a failure after any part of it, a background step that
+         did commit) and the error value. The secrets the attempt brought into being — the
+         entropy of a wallet whose creation or import failed — stay secrets; the random numbers
+         it used are spent. *)
+      let wd' := sstep_gen pfix wd o' in
+      mkWorld (w_insts wd) (fail_error pfix wd o' site ctx env :: w_known wd') (w_secret wd') (w_fresh wd') (w_pubpass wd)
   end.
 
-Fixpoint srun (wd : world) (ops : list sop) : world :=
-  match ops with [] => wd | o :: r => srun (sstep wd o) r end.
+Fixpoint srun_gen (pfix : bool) (wd : world) (ops : list sop) : world :=
+  match ops with [] => wd | o :: r => srun_gen pfix (sstep_gen pfix wd o) r end.
+
+(* the code as it is *)
+Definition sstep : world -> sop -> world := sstep_gen true.
+Definition srun : world -> list sop -> world := srun_gen true.
 
 (* the attacker knows everything ever stored or returned, and every public passphrase *)
 Definition knows (wd : world) (t : term) : Prop := In t (w_known wd).
